@@ -70,7 +70,7 @@ def run_case(spec):
     logging.getLogger('c20.quiet').setLevel(logging.ERROR)
     try:
         try:
-            res = run_with_watchdog(lambda: targets.log_case(spec), budget_s=30 if spec['n'] * max(1, spec['slow_ms']) < 1500 else 60, what=f"logging child ({spec['mode']}, {spec['n']}x{spec['size']}B)", signature=['hang', spec['mode']])
+            res = run_with_watchdog(lambda: targets.log_case(spec), budget_s=20 if spec['n'] * max(1, spec['slow_ms']) < 1500 else 40, what=f"logging child ({spec['mode']}, {spec['n']}x{spec['size']}B)", signature=['hang', spec['mode']])
         finally:
             reap_children()
         # the records are handled by a parent-side thread: give it a bounded moment to finish what it has been handed
